@@ -353,6 +353,53 @@ def h_sympy_shortcut(env, n, k):
     env.check_same(sorted(f_diag), [want], f"sympy one-gate circuit labels index {k} as advertised ({order})")
 
 
+def h_sympy_numeric(env, spec, n):
+    """ENUMERATED concrete shape: the sympy backend on circuits with ordinary floating-point angles that are no 'nice' multiples
+    of pi: frequencies equal |amplitude|^2 of an independent numpy evaluation to 1e-9 and sum to 1 (no simplification step may
+    round them)"""
+    import cmath
+    import math
+    from tangelo.linq import Circuit, Gate, get_backend
+    I2 = np.eye(2, dtype=complex)
+    X = np.array([[0, 1], [1, 0]], dtype=complex)
+
+    def mat(name, th):
+        c, s_ = math.cos(th / 2), math.sin(th / 2)
+        return {"RX": np.array([[c, -1j * s_], [-1j * s_, c]]), "RY": np.array([[c, -s_], [s_, c]], dtype=complex),
+                "RZ": np.array([[cmath.exp(-1j * th / 2), 0], [0, cmath.exp(1j * th / 2)]]), "H": np.array([[1, 1], [1, -1]], dtype=complex) / math.sqrt(2),
+                "PHASE": np.array([[1, 0], [0, cmath.exp(1j * th)]]), "X": X}[name]
+    st = np.zeros(2 ** n, dtype=complex)
+    st[0] = 1
+    gates = []
+    for name, tg, ct, th in spec:
+        gates.append(Gate(name, tg, control=ct, parameter=(th if th is not None else "")))
+        base = name[1:] if ct is not None and name not in ("CNOT",) else ("X" if name == "CNOT" else name)
+        U = mat(base, th or 0.0)
+        new = np.zeros_like(st)
+        for idx in range(2 ** n):
+            bits = [(idx >> (n - 1 - q)) & 1 for q in range(n)]
+            if ct is not None and not all(bits[c] for c in ct):
+                new[idx] += st[idx]
+                continue
+            b = bits[tg[0]]
+            for b2 in (0, 1):
+                j = idx ^ ((b ^ b2) << (n - 1 - tg[0]))
+                new[j] += U[b2, b] * st[idx]
+        st = new
+    with shim.concrete_mode():
+        freqs, _ = get_backend("sympy").simulate(Circuit(gates, n_qubits=n))
+    tot = sum(float(v) for v in freqs.values())
+    env.check_true(abs(tot - 1) < 1e-9, "sympy backend, numeric angles: frequencies sum to 1", detail=str(tot))
+    bad = []
+    for idx, a in enumerate(st):
+        key = format(idx, f"0{n}b")
+        p = abs(a) ** 2
+        f = float(freqs.get(key, 0.0))
+        if abs(f - p) > 1e-9:
+            bad.append((key, f, p))
+    env.check_true(not bad, "sympy backend, numeric angles: frequency == |amplitude|^2 of the numpy evaluation (1e-9)", detail=str(bad[:3]))
+
+
 def placements(n, n_t, n_c):
     for qs in itertools.permutations(range(n), n_t + n_c):
         tg, ct = list(qs[:n_t]), list(qs[n_t:])
@@ -366,6 +413,11 @@ def placements(n, n_t, n_c):
 def shapes(tier, seed):
     rnd = random.Random(seed)
     out = []
+    numeric = [[("RY", [0], None, 1.0471), ("RX", [1], None, 0.7), ("CNOT", [1], [0], None), ("RZ", [1], None, 2.113)],
+               [("H", [0], None, None), ("CRY", [1], [0], 0.31415), ("PHASE", [1], None, 1.234), ("RX", [0], None, -2.5)],
+               [("RY", [1], None, 5.0001), ("CRX", [0], [1], 1.0e-3), ("RY", [0], None, 0.123456789)]]
+    for i, sp_ in enumerate(numeric):
+        out.append(Shape(f"sympy/numeric/{i}", h_sympy_numeric, dict(spec=sp_, n=2), modules=()))
     for be in ("cirq", "sympy"):
         for nn in ((2,) if tier == "quick" else (2, 3)):
             out.append(Shape(f"shortcut-sampled/{be}/n{nn}", h_shortcut_sampled, dict(n=nn, backend=be), modules=MODS, max_paths=16))
